@@ -242,7 +242,36 @@ def oracle_pipeline(case, rec):
                             f'{s1[k]} -> {s2[k]}')
 
 
-ORACLES = {'C02/exception': oracle_selfrule, 'C02/many-strata': oracle_relabel, 'C02/relabel-invariance': oracle_relabel, 'C02/self-pair-rule': oracle_selfrule,
+@st.composite
+def pipeline_wide_case(draw):
+    """A mini-batch with an id-like column of 33 000 - 40 000 distinct values (more category codes than 16 bits number), each seen twice,
+    scored through the batch coding of mixed_rank_graph before and after an order-changing renaming of the ids."""
+    return {'k': draw(st.integers(33_000, 40_000)), 'seed': draw(st.integers(0, 2**32 - 1)), 'classes': draw(st.integers(2, 5))}
+
+
+def oracle_pipeline_wide(case, rec):
+    k = int(case['k'])
+    rng = np.random.Generator(np.random.PCG64(int(case['seed'])))
+    ids = np.repeat(np.arange(k), 2)[rng.permutation(2 * k)]
+    lab = (ids % int(case['classes']) + (rng.random(2 * k) < 0.3)) % int(case['classes'])
+    perm = rng.permutation(k)
+    df1 = pd.DataFrame({'ident': [f'u{int(i):06d}' for i in ids], 'label': [str(int(v)) for v in lab]})
+    df2 = pd.DataFrame({'ident': [f'{int(perm[i]):06d}|u{int(i)}' for i in ids], 'label': [str(int(v)) for v in lab]})
+    args = stubs.make_args(heuristic='MI-numba-randomized', target_ranking_only='True')
+
+    def scores(frame):
+        stubs.reset_globals()
+        return {(a, b): float(sc) for a, b, sc in mixed_rank_graph(frame, args, stubs.InlinePool(), stubs.PBar()).triplet_scores}
+    s1, s2 = scores(df1), scores(df2)
+    rec.nt(True, key=case)
+    rec.cls('batch-column>2^15-distinct-values')
+    for key in s1:
+        if key not in s2 or abs(s1[key] - s2[key]) > 1e-4:
+            raise Violation(f'pipeline score of {key} changed after an injective, order-changing renaming of {k} id values '
+                            f'(each seen twice): {s1[key]!r} -> {s2.get(key)!r}', kind='C02/pipeline-coding')
+
+
+ORACLES = {'C02/pipeline-wide': oracle_pipeline_wide, 'C02/exception': oracle_selfrule, 'C02/many-strata': oracle_relabel, 'C02/relabel-invariance': oracle_relabel, 'C02/self-pair-rule': oracle_selfrule,
            'C02/pipeline-coding': oracle_pipeline}
 
 
@@ -252,6 +281,7 @@ def run(ctx):
         Clause('C02/self-pair-rule', selfrule_case, oracle_selfrule, quick=1500, thorough=150000, quick_shards=3),
         Clause('C02/many-strata', manystrata_relabel_case, oracle_relabel, quick=4, thorough=48, quick_shards=4, thorough_shards=16),
         Clause('C02/pipeline-coding', frame_case, oracle_pipeline, quick=300, thorough=24000, quick_shards=3),
+        Clause('C02/pipeline-wide', pipeline_wide_case, oracle_pipeline_wide, quick=1, thorough=12, quick_shards=1, thorough_shards=12),
     ]
     drive(ctx, clauses)
     directed = ctx.stats.classes.get('equal-sum-nonidentical', 0) + ctx.stats.classes.get('equal-sum', 0)
